@@ -36,6 +36,9 @@ class _RabbitConsumer(ConsumerT):
         self.category = category
         self.server_side_cancel_event = asyncio.Event()
         self._consumer_tag: str | None = None
+        # a message that was taken out of the local buffer for a `consume()` which was cancelled
+        # before it could return it: handed out first by the next `consume()`, given back by `finish()`
+        self.__returned: tuple[RoutingKeyT, str, ParametersT] | None = None
         self.__is_paused: bool = False
         self.__is_consuming: bool = False
 
@@ -51,6 +54,10 @@ class _RabbitConsumer(ConsumerT):
             return msg
 
     async def __next_buffered(self) -> tuple[RoutingKeyT, str, ParametersT]:
+        if self.__returned is not None:
+            msg, self.__returned = self.__returned, None
+            return msg
+
         # fast-path without task creation
         if not self.queue.empty():
             return self.queue.get_nowait()
@@ -70,6 +77,9 @@ class _RabbitConsumer(ConsumerT):
                 # if we got cancellation while waiting on our tasks - cancel the tasks
                 get_task.cancel()
                 server_side_cancel_wait_task.cancel()
+                if get_task.done() and not get_task.cancelled() and get_task.exception() is None:
+                    # ... but the message it has already taken out of the buffer must not be lost
+                    self.__returned = get_task.result()
                 raise
 
             # cancel unfinished tasks
@@ -140,6 +150,9 @@ class _RabbitConsumer(ConsumerT):
                 extra={"tag": self._consumer_tag},
             )
         rejects = []
+        if self.__returned is not None:
+            self.queue.put_nowait(self.__returned)
+            self.__returned = None
         while self.queue.qsize() > 0:
             key, _, _ = self.queue.get_nowait()
             tag = self.broker._id_to_delivery_tag.pop(key.id_, None)
